@@ -19,6 +19,7 @@ type Gen struct {
 	Malformed bool
 	Profile   string
 	queue     []Op
+	lastRep   map[string]Op // the previous report of each address
 }
 
 type Membership struct {
@@ -205,6 +206,21 @@ func (g *Gen) kvOp() Op {
 }
 
 func (g *Gen) reportOp() Op {
+	op := g.freshReportOp()
+	if g.lastRep == nil {
+		g.lastRep = map[string]Op{}
+	}
+	// a host in steady state sends the same shard details cycle after cycle: one report in six repeats the shard part of
+	// the sender's previous report verbatim (whatever Drummer has learnt from other hosts in between)
+	if prev, ok := g.lastRep[op.Addr]; ok && g.R.Intn(6) == 0 {
+		op.Infos = append([]Info{}, prev.Infos...)
+		op.IDs = append([]uint64{}, prev.IDs...)
+	}
+	g.lastRep[op.Addr] = op
+	return op
+}
+
+func (g *Gen) freshReportOp() Op {
 	addr := g.Addrs[g.R.Intn(len(g.Addrs))]
 	infos := []Info{}
 	ids := []uint64{}
